@@ -169,10 +169,10 @@ def schedules(ck, frames, n):
                 if r < 0.25:
                     beh.append({"a": "peek", "arg": {"x": 0}})
                 elif r < 0.45:
-                    beh.append({"a": "grant", "arg": {"k": rng.choice([1, 2, 8, 64])}})
+                    beh.append({"a": "grant", "arg": {"k": rng.choice([1, 2, 8, 64]), "cond": 1}})
                 beh.append({"a": "call", "arg": {"seg": rng.choice([0, 0, 1, 2, 3, 4, 5]), "mis": rng.randrange(16)}})
         for _ in range(6):
-            beh.append({"a": "grant", "arg": {"k": 8}})
+            beh.append({"a": "grant", "arg": {"k": 16, "cond": 1}})
             beh.append({"a": "call", "arg": {"seg": rng.choice([0, 2, 3]), "mis": rng.randrange(16)}})
         behs.append(beh)
     return behs
@@ -209,6 +209,8 @@ def run(tier):
     # 1. the decoder design is safe and honest for all inputs and schedules in the bound
     res = vlib.tlc("MC_CobsDec", cfg["mc"], coverage=(tier == "thorough"))
     ck.add_tlc(res, "exhaustive " + cfg["mc"])
+    if tier == "thorough":
+        enc.vacuity(ck, res, ["Feed", "Call", "Apply", "Grant"])      # Apply = Peek
 
     # 2. binding A: every transition of the model replayed into the scaled real decoders
     gen = vlib.tlc("Gen_CobsDec", cfg["gen"], workers=6)
